@@ -354,6 +354,105 @@ impl Check for C10Check {
             let ops = vec![Op::Feed("コ\rx".into()), Op::Feed("\x1b[2;2H日\x08y".into())];
             c10_history_case(cx, 4, 3, &ops, &mut rng, "witness");
         }
+        // a double-width lead whose right-hand neighbour is no longer its placeholder (removed by
+        // DCH / ECH / ICH, or never there because the lead stood in the last column before a
+        // widening), then overwritten / extended in several ways: display() interposed everywhere
+        if cx.begin_group("wide lead without placeholder") {
+            let mut k = 0u64;
+            for c in [5u32, 8] {
+                for pre in [0usize, 2] {
+                    for place in [1u32, 3, c - 1] {
+                        for brk in 0..4 {
+                            for follow in 0..4 {
+                                k += 1;
+                                if !cx.mine(k) {
+                                    continue;
+                                }
+                                let mut ops: Vec<Op> = Vec::new();
+                                if pre > 0 {
+                                    ops.push(Op::Api(Call::CursorPosition(Some(2), Some(1))));
+                                    ops.push(Op::Api(Call::Draw("ab".into())));
+                                }
+                                ops.push(Op::Api(Call::CursorPosition(Some(1), Some(place))));
+                                ops.push(Op::Api(Call::Draw("\u{4e16}".into())));
+                                ops.push(Op::Api(Call::Draw("pq".into())));
+                                ops.push(Op::Api(Call::CursorPosition(Some(1), Some(place + 1))));
+                                ops.push(Op::Api(match brk {
+                                    0 => Call::DeleteCharacters(Some(1)),
+                                    1 => Call::EraseCharacters(Some(1)),
+                                    2 => Call::InsertCharacters(Some(1)),
+                                    _ => Call::Resize(None, Some(c + 2)),
+                                }));
+                                match follow {
+                                    0 => {}
+                                    1 => {
+                                        ops.push(Op::Api(Call::CursorPosition(Some(1), Some(place))));
+                                        ops.push(Op::Api(Call::Draw("x".into())));
+                                    }
+                                    2 => {
+                                        ops.push(Op::Api(Call::CursorPosition(Some(1), Some(place + 2))));
+                                        ops.push(Op::Api(Call::Draw("yz".into())));
+                                    }
+                                    _ => {
+                                        ops.push(Op::Api(Call::CursorPosition(Some(1), Some(place))));
+                                        ops.push(Op::Api(Call::EraseInLine(Some(1))));
+                                        ops.push(Op::Api(Call::Draw("\u{0301}".into())));
+                                    }
+                                }
+                                let mut rng = Rng::new(k);
+                                c10_history_case(cx, c, 3, &ops, &mut rng, "wide-lead");
+                            }
+                        }
+                    }
+                }
+            }
+            // the lead alone in the LAST column (drawn there with autowrap off, so it never had a
+            // placeholder), then pulled left by a DCH or given a never-written neighbour by a
+            // widening, then something written further right
+            for c in [5u32, 8] {
+                for brk in 0..3 {
+                    for follow in 0..3 {
+                        k += 1;
+                        if !cx.mine(k) {
+                            continue;
+                        }
+                        let mut ops: Vec<Op> = vec![
+                            Op::Api(Call::Draw("ab".into())),
+                            Op::Api(Call::ResetMode(vec![7], true)),
+                            Op::Api(Call::CursorPosition(Some(1), Some(c))),
+                            Op::Api(Call::Draw("\u{4e16}".into())),
+                            Op::Api(Call::SetMode(vec![7], true)),
+                        ];
+                        match brk {
+                            0 => {
+                                ops.push(Op::Api(Call::CursorPosition(Some(1), Some(1))));
+                                ops.push(Op::Api(Call::DeleteCharacters(Some(1))));
+                            }
+                            1 => ops.push(Op::Api(Call::Resize(None, Some(c + 3)))),
+                            _ => {
+                                ops.push(Op::Api(Call::CursorPosition(Some(1), Some(2))));
+                                ops.push(Op::Api(Call::DeleteCharacters(Some(2))));
+                                ops.push(Op::Api(Call::Resize(None, Some(c + 2))));
+                            }
+                        }
+                        match follow {
+                            0 => {}
+                            1 => {
+                                ops.push(Op::Api(Call::CursorPosition(Some(1), Some(c + 2))));
+                                ops.push(Op::Api(Call::Draw("z".into())));
+                            }
+                            _ => {
+                                ops.push(Op::Api(Call::CursorPosition(Some(1), Some(c))));
+                                ops.push(Op::Api(Call::Draw("yz".into())));
+                            }
+                        }
+                        let mut rng = Rng::new(k);
+                        c10_history_case(cx, c, 3, &ops, &mut rng, "wide-lead");
+                    }
+                }
+            }
+            cx.stats.exhaustive_parts.insert("192 histories 'double-width lead, its right-hand neighbour removed / never there (DCH, ECH, ICH, widening), then overwritten / extended / erased' with display() interposed before every single operation, before all, and checked for faithfulness along the way".into());
+        }
         // every Unicode scalar value in a cell, rendered (a) followed by text, (b) with the cell to
         // its right overwritten afterwards (what is left of a double-width character then), (c)
         // appended to a narrow and to a wide base
